@@ -96,7 +96,7 @@ def coreProgram (m : PModel) : Bool :=
         && coreExp c.lhs
         && (if c.logic then (c.cmp == .eq && (match c.rhs with | .bool true => true | _ => false)) else coreExp c.rhs)
         && coreFor c.iterVars c.iters && notForHead (constraintToks c))
-    && m.constants.all (fun k => (plainVar k.1 || k.1 == "_") && coreExp k.2)
+    && m.constants.all (fun k => (plainVar k.1 || k.1 == "_") && (coreExp k.2 || coreGraphValue k.2))
     && m.domains.all (fun d =>
         !d.vars.isEmpty && d.vars.all coreName && coreType d.ty && coreFor d.iterVars d.iters && notForHead (domainToks d))
     && (!m.constraints.isEmpty || (m.constants.isEmpty && m.domains.isEmpty))
